@@ -71,7 +71,7 @@ static void *arg_pattern(int k, int salt)
 	}
 }
 
-static void qsbr_close(int me)
+HARNESS_BOOKKEEPING static void qsbr_close(int me)
 {
 	if (F->is_qsbr && qcs[me] >= 0) {
 		orc_cs_end(qcs[me]);
@@ -79,7 +79,7 @@ static void qsbr_close(int me)
 	}
 }
 
-static void qsbr_open(int me)
+HARNESS_BOOKKEEPING static void qsbr_open(int me)
 {
 	if (F->is_qsbr)
 		qcs[me] = orc_cs_begin(me);
